@@ -11,7 +11,8 @@ PROP = 'C09'
 LEVEL = 'exploration'
 BUDGET = {'quick': 7200, 'thorough': 96000}
 RULE = ('cases = (a) generated well-formed chart with probe contracts (data-only conditions '
-        'reading cv[cid], some reading __old__), table guards and after()/idle() guards + history '
+        'reading cv[cid], some reading __old__ or active()), table guards and after()/idle() '
+        'guards, entry/exit/action code that records active(x) + history '
         'with clock advances, and a condition valuation cv (all true, or some false); (b) the '
         'shipped elevator_contract.yaml / microwave_with_contracts.yaml with generated event '
         'histories over their own alphabets (floors 0-9, waits). Interpreter A (contracts on, cv '
@@ -46,6 +47,14 @@ def strategy(tier):
                 o['c_active'] = draw(st.sampled_from(names))
             if 'id' in o and 'tguard' not in o and draw(st.floats(0, 1)) < 0.3:
                 o['aguard'] = draw(st.sampled_from(names))
+            # ... and so does some of the entry / exit / action code
+            if draw(st.floats(0, 1)) < 0.35:
+                line = "log.append(('A', active(%r), active(%r)))" % (
+                    draw(st.sampled_from(names)), draw(st.sampled_from(names)))
+                if 'id' in o:
+                    o['extra'] = [line]
+                else:
+                    o['extra_exit' if draw(st.booleans()) else 'extra_entry'] = [line]
         ops = draw(gen.histories(spec, 6, 18, p_all=0.4, p_none=0.1, advances=True, delays=True))
         ncond = sum(len(o.get('c_' + k) or []) for o in spec['states'] + spec['transitions']
                     for k in ('pre', 'post', 'inv'))
